@@ -62,6 +62,8 @@ def corpus_applicable(pid, d, t):
     """a corpus case joins a property's run unless it is outside that property's quantifier"""
     if d.get("routing", {}).get("use_id_table") is False:
         return pid == "C12"          # the no-table package branch: text well-formedness only
+    if pid == "C04" and any(r.get("auto_connect", True) is False for r in d.get("routers", [])):
+        return False                 # C04 speaks about one auto-connected router array
     return True
 
 
